@@ -56,8 +56,10 @@ def run(ctx):
     else:
         ctx.violation("Y1", lk, "namespace-mismatch", "the lookup does not read the namespace add_commands writes", node=lk.node,
                       witness="registered commands are not found")
-    fmt = [n for n in walk_no_nested(lk.node) if isinstance(n, ast.Constant) and isinstance(n.value, str) and n.value.endswith("Command")]
-    if fmt and all(n.value == "%sCommand" for n in fmt):
+    from sa.template import template, shape
+    shapes = [shape(template(n)) for n in walk_no_nested(lk.node) if isinstance(n, (ast.BinOp, ast.Call, ast.JoinedStr))]
+    shapes = [x for x in shapes if x is not None and x.endswith("Command")]
+    if shapes and all(x == "\0Command" for x in shapes):
         ctx.holds("Y1", "lookup appends the suffix 'Command' to the capitalised lower-cased name")
     else:
         ctx.violation("Y1", lk, "suffix-mismatch", "the lookup does not build '<Name>Command'", node=lk.node)
